@@ -77,6 +77,11 @@ class table_C_O_L_R_(DefaultTable.DefaultTable):
             # for new versions, keep the raw otTables around
             self.table = table
 
+    def ensureDecompiled(self, recurse=False):
+        # COLRv1 keeps the otTables object, whose subtables are read on demand
+        if hasattr(self, "table"):
+            self.table.ensureDecompiled(recurse=recurse)
+
     def compile(self, ttFont):
         from .otBase import OTTableWriter
 
